@@ -10,19 +10,33 @@
 EXTENDS Likelihood
 CONSTANTS Layout, Depth
 
-MCNP    == IF Layout = "two" THEN 3 ELSE 4
-MCFit   == IF Layout = "two" THEN <<TRUE, TRUE, FALSE>> ELSE <<TRUE, TRUE, FALSE, TRUE>>
-MCMode  == IF Layout = "two" THEN <<"lin", "log", "lin">> ELSE <<"lin", "log", "lin", "lin">>
-MCLo    == IF Layout = "two" THEN <<0, 0, 0>> ELSE <<0, 0, 0, 4>>
-MCHi    == IF Layout = "two" THEN <<8, 2, 0>> ELSE <<8, 2, 0, 1>>      \* d's bounds are given reversed
-MCVal0  == IF Layout = "two" THEN <<1, 1, 6>> ELSE <<1, 1, 6, 3>>
-MCXSet  == IF Layout = "two" THEN <<0..7, 0..2, {}>> ELSE <<{0, 2, 3, 6}, 0..2, {}, {2, 3}>>
-MCCoef  == IF Layout = "two" THEN <<<<1, 2, 3, 4>>, <<1, 0, 0, 1>>, <<1, 1, 0, 0>>>>
-           ELSE <<<<1, 2, 3, 4>>, <<1, 0, 0, 1>>, <<1, 1, 0, 0>>, <<0, 1, 2, 0>>>>
+\* Layout "mixed" (and "mixedref", the same world with a smaller vector set for the expected-counterexample
+\* run): priors given through set_prior in the OTHER space than the parameter's mode, both directions
+\*   a: mode lin, prior LogUniform(bounds = [0, 2])   x = 0, 1, 2  ->  a = 1, 10, 100
+\*   b: mode log, prior Uniform(bounds = [0, 48])     x           ->  b = x
+\*   c: lin, NOT fitted (12)
+\* perfect fit at a = 10, b = 2:  bin1 = (3a+b+2c)/2 = 28,  bin2 = (7a+b)/2 = 36
+Mixed   == Layout \in {"mixed", "mixedref"}
+MCNP    == IF Layout = "three" THEN 4 ELSE 3
+MCFit   == IF Layout = "three" THEN <<TRUE, TRUE, FALSE, TRUE>> ELSE <<TRUE, TRUE, FALSE>>
+MCMode  == IF Layout = "three" THEN <<"lin", "log", "lin", "lin">> ELSE <<"lin", "log", "lin">>
+MCLo    == IF Layout = "three" THEN <<0, 0, 0, 4>> ELSE <<0, 0, 0>>
+MCHi    == IF Layout = "three" THEN <<8, 2, 0, 1>> ELSE <<8, 2, 0>>      \* d's bounds are given reversed
+MCUser  == IF Mixed THEN <<TRUE, TRUE, FALSE>> ELSE [p \in 1..MCNP |-> FALSE]
+MCUMode == IF Mixed THEN <<"log", "lin", "lin">> ELSE [p \in 1..MCNP |-> "lin"]
+MCULo   == [p \in 1..MCNP |-> 0]
+MCUHi   == IF Mixed THEN <<2, 48, 0>> ELSE [p \in 1..MCNP |-> 0]
+MCVal0  == IF Mixed THEN <<1, 1, 12>> ELSE IF Layout = "two" THEN <<1, 1, 6>> ELSE <<1, 1, 6, 3>>
+MCXSet  == IF Layout = "mixed" THEN <<{0, 1, 2}, {0, 2, 10, 45}, {}>>
+           ELSE IF Layout = "mixedref" THEN <<{0, 1}, {0, 2, 3}, {}>>
+           ELSE IF Layout = "two" THEN <<0..7, 0..2, {}>> ELSE <<{0, 2, 3, 6}, 0..2, {}, {2, 3}>>
+MCCoef  == IF Layout = "three" THEN <<<<1, 2, 3, 4>>, <<1, 0, 0, 1>>, <<1, 1, 0, 0>>, <<0, 1, 2, 0>>>>
+           ELSE <<<<1, 2, 3, 4>>, <<1, 0, 0, 1>>, <<1, 1, 0, 0>>>>
 MCBins  == <<{1, 2}, {3, 4}>>
-MCData  == IF Layout = "two" THEN <<14, 12>> ELSE <<15, 14>>
+MCData  == IF Mixed THEN <<28, 36>> ELSE IF Layout = "two" THEN <<14, 12>> ELSE <<15, 14>>
 MCSig   == <<2, 3>>
 MCChem  == {1, 2}
+MCNaNBins == {1}                 \* "NaNSome": the native points of bin 1 are NaN, bin 2 is comparable
 
 \* binding C: print every simulated behaviour of length Depth (history of calls with the
 \* specification's expected written values and expected result)
